@@ -93,6 +93,40 @@ type HandPtrMarshal struct {
 func (h *HandPtrMarshal) MarshalJSON() ([]byte, error) { return json.Marshal(h.vals) }
 func (h *HandPtrMarshal) UnmarshalJSON(b []byte) error { return json.Unmarshal(b, &h.vals) }
 
+// HandPtrHidden keeps its state in unexported fields and declares BOTH JSON methods on
+// the pointer receiver: a State is marshalled by value, so as a struct field, a map value
+// or the State itself it is encoded by the default encoder ({}), not by MarshalJSON.
+type HandPtrHidden struct{ ids []int }
+
+type ptrHiddenDTO struct {
+	IDs []int `json:"ids"`
+}
+
+func (h *HandPtrHidden) MarshalJSON() ([]byte, error) { return json.Marshal(ptrHiddenDTO{h.ids}) }
+func (h *HandPtrHidden) UnmarshalJSON(b []byte) error {
+	var d ptrHiddenDTO
+	if err := json.Unmarshal(b, &d); err != nil {
+		return err
+	}
+	h.ids = d.IDs
+	return nil
+}
+
+// HandNone has no fields at all (like modeling.None): embedded, it shows no key.
+type HandNone struct{}
+
+// HandEmbNone hides its state behind an embedded key-less struct.
+type HandEmbNone struct {
+	HandNone
+	order []int
+}
+
+// HandDash hides its state behind an exported field the encoder skips.
+type HandDash struct {
+	entries map[string]int
+	Dirty   bool `json:"-"`
+}
+
 type hiddenT struct {
 	vals []int
 	idx  map[string]int
@@ -125,10 +159,15 @@ var hand = map[string]reflect.Type{
 	"Pipeline":        reflect.TypeOf(queueing.Pipeline[item]{}),
 	"Set":             reflect.TypeOf(lruset.Set{}),
 	"PtrStruct":       reflect.TypeOf(&EmbA{}),
+	"HandPtrHidden":   reflect.TypeOf(HandPtrHidden{}),
+	"HandNone":        reflect.TypeOf(HandNone{}),
+	"HandEmbNone":     reflect.TypeOf(HandEmbNone{}),
+	"HandDash":        reflect.TypeOf(HandDash{}),
 }
 
 var handNames = []string{"EmbA", "EmbB", "HandEmbU", "HandTwoEmb", "HandPair", "HandMarshalOnly",
-	"HandPtrMarshal", "hiddenT", "HandContainers", "Buffer", "Pipeline", "Set", "PtrStruct"}
+	"HandPtrMarshal", "hiddenT", "HandContainers", "Buffer", "Pipeline", "Set", "PtrStruct",
+	"HandPtrHidden", "HandNone", "HandEmbNone", "HandDash"}
 
 var scalar = map[string]reflect.Type{
 	"bool": reflect.TypeOf(false), "int": reflect.TypeOf(int(0)), "int8": reflect.TypeOf(int8(0)),
@@ -305,24 +344,28 @@ func shapes(t reflect.Type, s *shape, busy map[reflect.Type]bool) {
 			}
 			seen[n] = true
 		}
-		exp, unexp := false, false
+		// "mixed": the struct shows at least one member to the encoder AND keeps unexported
+		// state. A struct that shows nothing (hidden state only) is not a listed finding: the
+		// validator must reject it.
+		visible, unexp := len(names) > 0, false
 		for i := 0; i < t.NumField(); i++ {
 			sf := t.Field(i)
 			fi := jm.ParseField(sf)
 			if fi.Skip {
+				if sf.PkgPath != "" {
+					unexp = true
+				}
 				continue
 			}
-			if sf.PkgPath != "" {
+			if sf.PkgPath != "" && !(sf.Anonymous && sf.Type.Kind() == reflect.Struct) {
 				unexp = true
-			} else {
-				exp = true
 			}
 			if fi.OmitEmpty && (sf.Type.Kind() == reflect.Slice || sf.Type.Kind() == reflect.Map) {
 				s.omit = true
 			}
 			shapes(sf.Type, s, busy)
 		}
-		if exp && unexp {
+		if visible && unexp {
 			s.mixed = true
 		}
 	}
